@@ -172,7 +172,10 @@ func typeStr(t types.Type) string {
 var funcAliases map[*ssa.Global]*ssa.Function
 
 func (P *Prog) buildFuncAliases() {
-	funcAliases = map[*ssa.Global]*ssa.Function{}
+	// keyed by the Global of its own program: entries of several loaded programs (thorough tier) coexist
+	if funcAliases == nil {
+		funcAliases = map[*ssa.Global]*ssa.Function{}
+	}
 	stores := map[*ssa.Global][]*ssa.Store{}
 	for _, fn := range P.RepoFns {
 		InstrsRaw(fn, func(in ssa.Instruction) {
